@@ -3,7 +3,7 @@ import random
 
 from lib import driver
 from lib.rec import Rec
-from lib import refmodel
+from lib import refmodel, gen
 
 LEVEL = "exploration"
 RULE = ("G2 typed Sids x G3 queries / keyword overlays of 1..3 pairs (existing, deeper, foreign keys; '~' optional, invalid, "
@@ -13,7 +13,7 @@ RULE = ("G2 typed Sids x G3 queries / keyword overlays of 1..3 pairs (existing, 
         "wrapped (M-query) so internal calls are judged too. Non-trivial = distinct (uri, query) whose overlay differs from "
         "the old fields.")
 ASSUME = ["not judged (counted unspecified): repeated keys, inner or doubled '~', blank values, URL metacharacters, "
-          "'several types fit' cases where old-string and overlay disagree on being a search",
+          "(a Sid is a search when its string OR the applied query carries a search symbol)",
           "field ORDER of the result is not part of C04 (C03 checks navigation of query-built Sids)"]
 BUDGET = {"quick": 40000, "thorough": 600000}
 NSHARDS = 16
@@ -68,12 +68,10 @@ def judge_query(rec, model, old_type, old_fields, old_string, q, r_type, r_field
         br = "one"
     elif old_type in F:
         br = "several_with_old"
-    elif search_old and search_new:
-        br = "several_without_old_search"
-    elif not search_old and not search_new:
-        br = "several_without_old_nonsearch"
+    elif search_old or search_new:
+        br = "several_without_old_search"       # the Sid being built ("string?query") carries a search symbol
     else:
-        br = "several_without_old_ambiguous"
+        br = "several_without_old_nonsearch"
     rec.count("branch:" + br)
     rec.count("judged_" + where)
     if ov != old_fields:
@@ -204,6 +202,17 @@ def gen_pairs(rng, model, vocab, t, x_fields, for_kw=False):
         else:
             i = rng.randrange(len(keys))
             k, v = keys[i], vocab.value(t, i, rng)
+        if not for_kw and rng.random() < 0.06 and model.alias and longer:
+            # an extension alias as value of the leaf key (the search unfolders rewrite such queries: must not leak into Sid())
+            lk = model.leaf_keys.get(model.basetype(t.name))
+            if lk:
+                k, v = lk, rng.choice(sorted(model.alias))
+        if not for_kw and v and rng.random() < 0.04:
+            # a ':' inside a value of an open key (namespaced names)
+            cand = [(u, i) for u in [t] + longer[:4] for i in range(u.nseg) if vocab.info[u.name][i]["open"]]
+            if cand:
+                u, i = rng.choice(cand)
+                k, v = u.keys[i], "ns:" + rng.choice(gen.SAFE_NAME_POOL)
         if for_kw:
             if rng.random() < 0.2:
                 v = None
@@ -221,14 +230,28 @@ def one_case(rec, model, vocab, Sid, rng, t, s, pairs_q, pairs_kw, mode):
     if not x:
         return
     case = {"s": s, "mode": mode}
-    if mode in ("string", "get_with_query"):
+    if mode in ("string", "get_with_query", "plain_string"):
         sepq = "?" if (len(pairs_q) > 1 and len(s) % 5 == 0) else "&"      # '?' is a documented alternative to '&'
         q = sepq.join("%s=%s" % (k, v) for k, v in pairs_q)
         if sepq == "?":
             rec.count("question_mark_separator")
         case["q"] = q
+        if mode == "plain_string" and (":" in s or Sid(str(x)).type != x.type):
+            mode = "string"
+        if len(q) % 7 == 0:
+            # history: the same query text went through the search unfolders before (they parse and rewrite queries)
+            try:
+                from spil.sid.read.tools import unfold_search
+                unfold_search(str(x) + "?" + q)
+                rec.count("query_seen_by_unfolders_before")
+            except Exception:
+                pass
         try:
-            r = Sid(x.uri + "?" + q) if mode == "string" else x.get_with(query=q)
+            if mode == "plain_string":
+                r = Sid(str(x) + "?" + q)
+                rec.count("plain_string_mode")
+            else:
+                r = Sid(x.uri + "?" + q) if mode == "string" else x.get_with(query=q)
         except Exception as e:
             rec.violation("query_raised", case, repr(e))
             return
@@ -310,7 +333,7 @@ def worker(args):
             t = rng.choice(ts)
             s = t.name + ":" + s
             x = Sid(s)
-        mode = rng.choice(["string", "get_with_query", "kw", "kw", "kw_keyvalue"])
+        mode = rng.choice(["string", "plain_string", "get_with_query", "kw", "kw", "kw_keyvalue"])
         rec.ev()
         rec.count("mode:" + mode)
         pq = gen_pairs(rng, model, vocab, t, x.fields)
